@@ -98,7 +98,7 @@ fn check_model(p: &[MeanVari], rep: &Report, ties: &AtomicU64, floors: &AtomicU6
 
 pub fn run(tier: Tier) -> i32 {
     let rep = Report::new("C08", tier, "model_checking");
-    rep.set_rule("SCOPE: full product over states 1..N of (mean in {0.2,0.49,0.5,1.5,2.5,10,60}) x (variance in {0,1e-3,1,400}) x speed lattice {0.1..50} plus F1/(k+0.5)(1±1e-9) rounding boundaries, on the real DurationEstimator::create (constructed with states-per-phoneme 1, 2, 3, 5 or the whole length); plus long utterances (200 and 1500 states, totals up to 10^6 frames); distinct = distinct (model, speed) pairs; non-trivial = every case (each evaluates the total-frames law)");
+    rep.set_rule("SCOPE: full product over states 1..N of (mean in {0.2,0.49,0.5,1.5,2.5,10,60}) x (variance in {0,1e-3,1,400}) x speed lattice {0.1..50} plus F1/(k+0.5)(1±1e-9) rounding boundaries, on the real DurationEstimator::create (constructed with states-per-phoneme 1, 2, 3, 5 or the whole length); plus long utterances (200 and 1500 states, totals up to 10^6 frames; 4095..8201 states, thorough 32772); distinct = distinct (model, speed) pairs; non-trivial = every case (each evaluates the total-frames law)");
     rep.assume("means/variances/speeds outside the listed alphabets are not explored; at exact .5 ties either rounding is accepted");
     let max_states = tier.pick(4usize, 5usize);
     let per = MEANS.len() * VARS.len();
@@ -130,6 +130,16 @@ pub fn run(tier: Tier) -> i32 {
         }
         for (a, b) in [(6usize, 0usize), (5, 3), (0, 6)] {
             long.push((vec![MeanVari(MEANS[a], VARS[1]), MeanVari(MEANS[b], VARS[2])], 1500));
+        }
+        // beyond: sequences of 2^12..2^13 states (thorough: 2^15), patterns with one loose (high-variance) state among tight ones
+        let loose: [Vec<MeanVari>; 3] = [
+            vec![MeanVari(2.5, 400.0), MeanVari(10.0, 1e-3), MeanVari(1.5, 1.0)],
+            vec![MeanVari(60.0, 1.0), MeanVari(0.2, 400.0)],
+            vec![MeanVari(10.0, 400.0), MeanVari(2.5, 1.0), MeanVari(2.5, 1.0), MeanVari(2.5, 1.0), MeanVari(1.5, 1e-3)],
+        ];
+        for (i, n) in tier.pick(vec![4095usize, 4100, 8200], vec![4095, 4100, 8200, 16400, 32771]).into_iter().enumerate() {
+            long.push((loose[i % 3].clone(), n));
+            long.push((loose[(i + 1) % 3].clone(), n + 1));
         }
         nmodels += long.len() as u64;
         rep.par_for(long.len(), 1, "C08 long utterances", |i| {
@@ -187,6 +197,35 @@ pub fn run(tier: Tier) -> i32 {
     // end-to-end on the bundled voice: frames of the generator vs the law, through Engine
     let corpus = labels::corpus();
     let base = jbonsai::Engine::load(&[BUNDLED]).expect("bundled voice");
+    // long sequences with irregular parameters: the bundled voice's own duration Gaussians for 820 labels (4100 states) and
+    // for the whole corpus read as one utterance (7280 states), and mixtures drawn by a fixed recurrence from off-lattice values
+    {
+        let mut seqs: Vec<(String, Vec<MeanVari>)> = Vec::new();
+        for n in [820usize, corpus.len()] {
+            let labs: Vec<jlabel::Label> = corpus[..n].iter().map(|l| labels::parse(l)).collect();
+            let models = jbonsai::model::Models::new(&labs, &base.voices, base.condition.get_interporation_weight());
+            seqs.push((format!("bundled voice, corpus[0..{}]", n), models.duration()));
+        }
+        for (k, n) in [4100usize, 8195].into_iter().enumerate() {
+            let mv = [1.2, 1.5, 2.5, 3.4, 4.6, 7.3, 10.0, 21.0];
+            let vv = [0.3, 1.0, 4.0, 9.0, 30.0, 120.0];
+            let mut x = 12345u64 + k as u64;
+            let p: Vec<MeanVari> = (0..n)
+                .map(|_| {
+                    x = x.wrapping_mul(6364136223846793005).wrapping_add(1442695040888963407);
+                    MeanVari(mv[(x >> 33) as usize % mv.len()], vv[(x >> 45) as usize % vv.len()])
+                })
+                .collect();
+            seqs.push((format!("recurrence-mixed, {} states (x <- 6364136223846793005 x + 1442695040888963407 from {})", n, 12345 + k), p));
+        }
+        nmodels += seqs.len() as u64;
+        rep.par_for(seqs.len(), 1, "C08 long irregular", |i| {
+            if let Some((k, what, sp)) = check_model(&seqs[i].1, &rep, &ties, &floors) {
+                let what = if what.len() > 600 { format!("{}…", what.chars().take(600).collect::<String>()) } else { what };
+                rep.violation(k, format!("{}: {}", seqs[i].0, what), json!({"sequence": seqs[i].0, "states": seqs[i].1.len(), "speed": sp}));
+            }
+        });
+    }
     let stride = tier.pick(181usize, 23usize);
     let starts: Vec<usize> = ((seed() as usize % stride)..corpus.len() - 8).step_by(stride).collect();
     let e2e_speeds = [0.25, 0.5, 0.999, 1.0, 1.2, 1.4, 2.0, 4.0, 50.0];
